@@ -1,6 +1,6 @@
 """What MANIFEST.json says about each claimed property (level text and trusted-base note)."""
 
-HOOK_COMMITS = ["3294ba2", "bc53046", "012ac7c"]
+HOOK_COMMITS = ["3294ba2", "bc53046", "012ac7c", "289a0b3"]
 
 NOT_APPLICABLE = {}
 
@@ -23,7 +23,7 @@ _ATLOG = (" The atomic-operation log is part of the comparison: under hook H3 th
           "yields the model's new word(s), for every state and operation.")
 
 _INJ = (" Behavioural tie of the interleaving model (preemption injection): under hook H4 the harness preempts one call of "
-        "the real crate immediately before each of its atomic operations and runs complete calls of other agents there "
+        "the real crate immediately before or after any of its atomic operations (at one or two such points) and runs complete calls of other agents there "
         "(exactly the schedule 'A preempted after k atomic operations, B runs, A resumes', deterministically, for every "
         "prefix history up to a depth, every call, every k, every injected call, followed by seeded random scenarios); the recorded atomic operations, "
         "attributed to their agents, are replayed in an acceptor of the atomic-granularity model "
